@@ -76,6 +76,25 @@ pub struct Embedded {
     pub c: Option<f64>,
 }
 
+#[derive(serde::Deserialize, Debug)]
+#[allow(dead_code)]
+pub enum TEnum {
+    A(u8),
+    B,
+    C { x: bool },
+    D(i8, i8),
+}
+#[derive(serde::Deserialize, Debug)]
+#[allow(dead_code)]
+pub struct TNew(pub Vec<i64>);
+#[derive(serde::Deserialize, Debug)]
+#[allow(dead_code)]
+#[serde(deny_unknown_fields)]
+pub struct TStrict {
+    pub a: u8,
+    pub e: Option<TEnum>,
+}
+
 /// every parse-type entry point (no path) applied to `input`; `Ok(())` or the error
 pub fn parse_entries(input: &[u8]) -> Vec<(&'static str, Result<Result<(), ErrInfo>, String>)> {
     let mut out: Vec<(&'static str, Result<Result<(), ErrInfo>, String>)> = Vec::new();
@@ -97,6 +116,17 @@ pub fn parse_entries(input: &[u8]) -> Vec<(&'static str, Result<Result<(), ErrIn
     ent!("slice:Embedded", sonic_rs::from_slice::<Embedded>(input));
     ent!("slice:VecString", sonic_rs::from_slice::<Vec<String>>(input));
     ent!("slice:Bool", sonic_rs::from_slice::<bool>(input));
+    // typed targets whose errors are raised by serde visitors (invalid type / unknown variant / missing field ...)
+    ent!("slice:Enum", sonic_rs::from_slice::<TEnum>(input));
+    ent!("slice:VecEnum", sonic_rs::from_slice::<Vec<TEnum>>(input));
+    ent!("slice:MapI32", sonic_rs::from_slice::<HashMap<String, i32>>(input));
+    ent!("slice:BTreeU8", sonic_rs::from_slice::<std::collections::BTreeMap<u8, bool>>(input));
+    ent!("slice:Tuple", sonic_rs::from_slice::<(u8, String)>(input));
+    ent!("slice:OptVecU8", sonic_rs::from_slice::<Option<Vec<u8>>>(input));
+    ent!("slice:Newtype", sonic_rs::from_slice::<TNew>(input));
+    ent!("slice:Strict", sonic_rs::from_slice::<TStrict>(input));
+    ent!("slice:unit", sonic_rs::from_slice::<()>(input));
+    ent!("slice:char", sonic_rs::from_slice::<char>(input));
     if let Ok(s) = std::str::from_utf8(input) {
         ent!("str:Value", sonic_rs::from_str::<Value>(s));
         ent!("str:Lazy", sonic_rs::from_str::<LazyValue>(s));
